@@ -75,7 +75,7 @@ def validate(ctx, runs, defs, prop_prefixes, keyfn=None):
                         raise vf.Inconclusive("player crashed outside the library on %s: %s" % (sc["name"], err[-1500:]))
                     lines.append(json.dumps({"e": "Final", "seq": last["seq"] + 2, "t": last.get("t", 0), "goroutines_left": 0, "stacks": [],
                                              "ports_rebound": True, "custom_close": [], "events_closed": True, "conns_not_released": 0,
-                                             "serial_not_closed": 0, "synthetic": True}))
+                                             "serial_not_closed": 0, "frames_changed_after_delivery": 0, "synthetic": True}))
                 stats["events"] += len(lines)
                 out.write("\n".join(lines) + "\n")
         paths.append(p)
